@@ -217,6 +217,47 @@ PROPS["C18"] = dict(
     assumptions=[],
 )
 
+PROPS["C13"] = dict(
+    title="A subscriber eventually learns every change it subscribed to (safety half)",
+    scope="Abstract view pending(t) = max change id of the entries matching a concrete (endpoint, cluster, attribute). Step contracts: ChangedAttr::{matches, covers, coarsen}; "
+          "ChangedAttrs::{record_raw (never under-covers, ids strictly increase), purge_up_to (entries above the threshold untouched), queries, clear, "
+          "promote_largest_group}; SubscriptionsInner::{add, report, find_reportable, report_complete, purge_reported_changes, clear} with the NoLoss invariant over ALL live "
+          "subscriptions including the one in flight; ReportContext commit-on-success / restore-on-failure; timing gates (is_expired, back-off, allowed/due instants).",
+    verus=[],
+    functions=[],
+    trusted=["buffer pool replaced by a one-byte tag stand-in (rx is never read)", "Instant::now stubbed; Notification::notify trusted"],
+    out_of_reach=["'eventually reported' (liveness; reporter loop scheduling), events (EventReader over TLV buffers)",
+                  "overflow coalescing at full capacity (16 entries) did not close: covered only at 4 entries (bounded, not counted)"],
+    assumptions=[],
+)
+
+PROPS["C15"] = dict(
+    title="A nonce is never used for two different messages",
+    scope="Session::get_msg_ctr (strictly increasing, error once the counter space is exhausted), Session::pre_send counter discipline over a 5-slot exchange table "
+          "(a fresh message stamps the old counter and increments; a retransmission stamps exactly the counter remembered in its RetransEntry and consumes none; group data takes "
+          "its reservation), RetransEntry/ReliableMessage counter memory, get_iv injective in (flags, counter, node id); id allocators: get_next_sess_id, get_next_exch_id, "
+          "Sessions::add unique internal id (bounded tables, not counted).",
+    verus=[],
+    functions=[],
+    trusted=["RandOnlyCrypto: rand returns arbitrary values or fails; Instant::now stubbed"],
+    out_of_reach=["'a retransmission is bit-for-bit identical' depends on every async message builder being idempotent (cached signature in the CASE responder)",
+                  "capacity-complete session tables (32 x 5) do not close: allocators are proved at 1-3 sessions (bounded)"],
+    assumptions=[],
+)
+
+PROPS["C20"] = dict(
+    title="Unfinished or hostile handshakes cannot leak or exhaust node resources for good (safety half)",
+    scope="Session::{add_exch, remove_exch} (a slot is freed unless a retransmission/ack is pending, then the role becomes dropped), mDNS resolve/browse guards release their "
+          "rendezvous on drop, Vec::swap_remove model exactness; bounded tables: eviction returns only an unreserved session without any live exchange, prefers an expired one, "
+          "and returns Some whenever such a session exists; Sessions::{add, remove, remove_pase} frames.",
+    verus=[],
+    functions=[],
+    trusted=["Vec::swap_remove replaced by a model proved equal to the real body on Vec<u64,4>"],
+    out_of_reach=["ReservedSession drop contracts and tables beyond 1-3 sessions did not close in CBMC",
+                  "'once traffic stops every slot is free again', 'a new legitimate handshake succeeds', busy replies (liveness / async)"],
+    assumptions=[],
+)
+
 
 # ---- harness lists come from lib/harness_index.json (tools/gen_index.py scans kani/*.rs) and the named
 # ---- obligations each harness must discharge from lib/expected.json (./verif expect-update)
